@@ -75,7 +75,14 @@ fn move_number(rng: &mut Rng) -> u128 {
         0 => 2,
         1 => 1 + rng.below(200) as u128,
         2 => (rng.next() >> 24) as u128,
-        3 => (1u128 << 62) - rng.below(1000) as u128,
+        3 => match rng.below(5) {
+            0 => (1u128 << 16) - 3 + rng.below(6) as u128,
+            1 => (1u128 << 32) - 3 + rng.below(6) as u128,
+            2 => (1u128 << 62) - rng.below(1000) as u128,
+            3 => (1u128 << 63) - 3 + rng.below(1000) as u128,
+            // the largest numbers leave 2^40 increments of headroom: no game gets that long
+            _ => (1u128 << 64) - (1u128 << 40) - rng.below(1000) as u128,
+        },
         4 => 1,
         _ => 17,
     }
